@@ -116,7 +116,16 @@ func (s *Sim) oracleC02(op Op, evs []SIEvent) {
 						max[t] = 0
 					}
 				}
+			} else if spec := s.conf.Find(qp); spec != nil && pq.Managed {
+				// a configured queue: the maximum the active configuration gives it (one without any positive
+				// quantity is no maximum), not what the queue object happens to hold
+				if len(spec.Max) == 0 || spec.Max.IsZero() {
+					continue
+				}
+				max = spec.Max
+				s.probe("queue_max_from_configuration")
 			} else {
+				// a dynamic queue: template or application tags set its maximum, the queue object is the only record
 				if !pq.HasMax {
 					continue
 				}
